@@ -684,7 +684,7 @@ impl<'a> Gen<'a> {
         if self.cfg.wild_numbers {
             self.tape.pick(NUM_LITS).to_string()
         } else {
-            self.tape.pick(&NUM_LITS[..30]).to_string()
+            self.tape.pick(&NUM_LITS[..34]).to_string()
         }
     }
 
@@ -1012,13 +1012,14 @@ impl<'a> Gen<'a> {
             let y = [1970, 1999, 2000, 2023, 2024, 2038, 2100][self.tape.below(7)];
             let (m, dd) = [(1, 1), (2, 28), (2, 29), (3, 1), (12, 31), (6, 15), (12, 3)][self.tape.below(7)];
             let (hh, mi, ss) = [(0, 0, 0), (23, 59, 59), (13, 51, 55), (12, 0, 0)][self.tape.below(4)];
+            let frac = if !zone && self.tape.chance(1, 2) { self.tape.pick_s(&[".5", ".25", ".360", ".360367", ".000001", ".999999", ".1"]) } else { "" };
             let t = if zone {
                 let z = self.tape.pick_s(&["+0000", "+0500", "-0330", "+1400", "-1200", "+0545"]);
                 format!("\"{:04}-{:02}-{:02} {:02}:{:02}:{:02} {}\"", y, m, dd, hh, mi, ss, z)
             } else {
-                format!("\"{:04}-{:02}-{:02}T{:02}:{:02}:{:02}\"", y, m, dd, hh, mi, ss)
+                format!("\"{:04}-{:02}-{:02}T{:02}:{:02}:{:02}{}\"", y, m, dd, hh, mi, ss, frac)
             };
-            let fm = if zone { "\"%Y-%m-%d %H:%M:%S %z\"" } else { "\"%Y-%m-%dT%H:%M:%S\"" };
+            let fm = if zone { "\"%Y-%m-%d %H:%M:%S %z\"" } else if frac.is_empty() { "\"%Y-%m-%dT%H:%M:%S\"" } else { "\"%Y-%m-%dT%H:%M:%S%.f\"" };
             return Expr::call(s.f, vec![Expr::Lit(t), Expr::Lit(fm.to_string())]);
         }
         // concretise argument 0 when it is a generic collection, so lambdas know their `.`
